@@ -495,7 +495,7 @@ func TestVerif_C28_parallel(t *testing.T) {
 // ---------------------------------------------------------------------------------------
 // C28: generated bulk inserts racing with explicit ids placed at the live sequence
 
-const parRaceRule = "2-4 goroutine sessions (autocommit), each pinned to its own branch where possible, bulk-insert generated ids (multi-row statements of 40-200 rows) while 1-2 further sessions keep inserting EXPLICIT ids in ladders placed at the live sequence (the largest id any generator has reported so far: a few below it, at it, and 1..k above it, step 1 or 2) on yet another branch, all truly in parallel for a bounded number of statements. History invariant: no generating INSERT fails (a duplicate key there means a value was handed out twice), the ids read back from the rows are pairwise distinct over all sessions and branches, increasing inside a statement and from statement to statement of one session (LAST_INSERT_ID() names the first of each statement and increases), and every id generated by a statement that started after an explicit id e was acknowledged is > e. Non-trivial: at least one explicit insert at or above the live sequence succeeded while generators were running; distinct by the drawn parameters and outcome counts."
+const parRaceRule = "2-4 goroutine sessions (autocommit), each pinned to its own branch where possible, bulk-insert generated ids (multi-row statements of 40-200 rows) while 1-2 further sessions keep inserting EXPLICIT ids in ladders placed at the live sequence (each explicit session first generates one id itself to learn the live sequence, predicts the generators' advance per statement from consecutive probes, and places a ladder of explicit ids a little below, at, and 1..k above the predicted position) on yet another branch, all truly in parallel for a bounded number of statements. History invariant: no generating INSERT fails (a duplicate key there means a value was handed out twice), the ids read back from the rows are pairwise distinct over all sessions and branches, increasing inside a statement and from statement to statement of one session (LAST_INSERT_ID() names the first of each statement and increases), and every id generated by a statement that started after an explicit id e was acknowledged is > e. Non-trivial: at least one explicit insert at or above the live sequence succeeded while generators were running; distinct by the drawn parameters and outcome counts."
 
 type parRaceGen struct {
 	ids      []uint64
@@ -543,6 +543,8 @@ func parSeqRace(rt *rapid.T, srv *vsql.Server, admin *vsql.Session, rec *vh.Reco
 	var floor atomic.Uint64  // largest explicit id whose INSERT has been acknowledged
 	var running atomic.Int32 // generators still at work
 	var explicitOK, explicitAtOrAbove, explicitDup atomic.Int64
+	var problemsMu sync.Mutex
+	var lateProblems []string
 	running.Store(int32(ng))
 	gens := make([]*parRaceGen, ng)
 	var wg sync.WaitGroup
@@ -622,6 +624,7 @@ func parSeqRace(rt *rapid.T, srv *vsql.Server, admin *vsql.Session, rec *vh.Reco
 		}(i)
 	}
 	expErr := make([]string, ne)
+	expGen := make([][]uint64, ne) // ids generated by the explicit sessions' own probes
 	for j := 0; j < ne; j++ {
 		wg.Add(1)
 		go func(j int) {
@@ -629,16 +632,49 @@ func parSeqRace(rt *rapid.T, srv *vsql.Server, admin *vsql.Session, rec *vh.Reco
 			conn := expConn[j]
 			tag := (j + 1) * 1000000
 			n := 0
+			// The session learns the live sequence exactly by generating one id itself (probe), predicts
+			// how far the generators move it per statement (adv, from consecutive probes) and then
+			// places a short ladder of explicit ids around the predicted position: a few below, at, and
+			// 1..k above it.
+			var lastProbe uint64
+			var sinceProbe int
+			adv := float64(rows) / 4
 			for running.Load() > 0 && n < maxExplicit {
-				cur := live.Load()
-				start := uint64(1)
-				if cur > uint64(ladderBelow) {
-					start = cur - uint64(ladderBelow)
+				tag++
+				n++
+				if err := conn.Exec(fmt.Sprintf("INSERT INTO a (v) VALUES (%d)", tag)); err != nil {
+					if vsql.ErrCode(err) == 1062 {
+						expErr[j] = fmt.Sprintf("generating probe INSERT failed: %v", err)
+						problemsMu.Lock()
+						lateProblems = append(lateProblems, fmt.Sprintf("E%d on %s: a generating single-row INSERT failed: %v", j, expBranch[j], err))
+						problemsMu.Unlock()
+					} else {
+						expErr[j] = err.Error()
+					}
+					return
 				}
+				li, err := conn.Query("SELECT LAST_INSERT_ID()")
+				if err != nil || len(li.Data) != 1 {
+					expErr[j] = fmt.Sprintf("LAST_INSERT_ID: %v", err)
+					return
+				}
+				g, _ := strconv.ParseUint(li.Data[0][0], 10, 64)
+				expGen[j] = append(expGen[j], g)
+				if lastProbe != 0 && g > lastProbe && sinceProbe > 0 {
+					adv = 0.5*adv + 0.5*float64(g-lastProbe)/float64(sinceProbe+1)
+				}
+				lastProbe, sinceProbe = g, 0
 				for k := 0; k < ladderLen && running.Load() > 0 && n < maxExplicit; k++ {
-					e := start + uint64(k*step)
+					pred := float64(g) + adv*float64(k+1)
+					spread := 4 + ladderBelow/5
+					off := (k*step)%(2*spread) - spread/2 // a little below the predicted position … 1.5 spreads above it
+					e := uint64(int64(pred) + int64(off))
+					if e <= g {
+						e = g + 1 + uint64(k%3)
+					}
 					tag++
 					n++
+					sinceProbe++
 					seqBefore := live.Load()
 					err := conn.Exec(fmt.Sprintf("INSERT INTO a (id,v) VALUES (%d,%d)", e, tag))
 					switch {
@@ -680,9 +716,24 @@ func parSeqRace(rt *rapid.T, srv *vsql.Server, admin *vsql.Session, rec *vh.Reco
 			total++
 		}
 	}
+	problems = append(problems, lateProblems...)
 	for j, e := range expErr {
-		if e != "" {
-			rt.Fatalf("E%d: explicit INSERT failed with an unexpected error: %s", j, e)
+		if e != "" && len(lateProblems) == 0 {
+			rt.Fatalf("E%d: statement failed with an unexpected error: %s", j, e)
+		}
+	}
+	for j, ids := range expGen {
+		var last uint64
+		for _, id := range ids {
+			if g, dup := seen[id]; dup {
+				problems = append(problems, fmt.Sprintf("id %d was generated twice: once by session index %d (>=0: generator, <0: explicit session's probe) and by the probe of E%d (on %s)", id, g, j, expBranch[j]))
+			}
+			if id <= last {
+				problems = append(problems, fmt.Sprintf("E%d on %s: generated id %d after %d (the sequence went backwards)", j, expBranch[j], id, last))
+			}
+			last = id
+			seen[id] = -1 - j
+			total++
 		}
 	}
 	desc := fmt.Sprintf("%s generators=%d explicit_sessions=%d rows/stmt=%d stmts/gen=%d ladder=[-%d..+%d step %d] -> generated=%d explicit ok=%d (at/above live sequence %d) dup=%d",
@@ -701,7 +752,7 @@ func TestVerif_C28_race(t *testing.T) {
 		t.Skip("thorough tier only (a small dose runs inside TestVerif_C28 in the quick tier)")
 	}
 	rec := vh.NewRecorder("C28", "parallel_explicit_vs_generated", "exploration", parRaceRule,
-		"explicit ids are aimed with the harness' own knowledge of the live sequence (the largest id reported by a generator), not by reading the tracker",
+		"explicit ids are aimed with what a client can observe (its own generated probe id and LAST_INSERT_ID()), never by reading the tracker",
 		"rule (3) is applied to statements that started after the explicit insert was acknowledged; an explicit id may legitimately equal an id generated concurrently on another branch",
 		"failures do not shrink; the first problems and the drawn parameters are printed")
 	defer rec.Write(t)
